@@ -64,13 +64,13 @@ Definition strip_quotes (v : str) : str :=
 (* _get_word_value(word) for a word node *)
 Definition word_value (w : tree) : str := strip_quotes (attr_d "value" w).
 
-(* _is_assignment_word: the regular expression [A-Za-z_][A-Za-z0-9_]*(\[[^]]*\])?\+?= matched at the start
+(* _is_assignment_word: the regular expression [A-Za-z_][A-Za-z0-9_]*(\[[^][]*\])?\+?= matched at the start
    of the word - NAME=, NAME+=, NAME[sub]=, NAME[sub]+= with NAME an ASCII identifier *)
 Definition ident_start (c : N) : bool := in_ranges c [(65, 90); (97, 122); (95, 95)].
 Definition ident_char (c : N) : bool := ident_start c || in_ranges c [(48, 57)].
 Fixpoint skip_ident (s : str) : str := match s with c :: r => if ident_char c then skip_ident r else s | [] => [] end.
-Fixpoint after_bracket (s : str) : option str :=      (* the text after the first "]" *)
-  match s with c :: r => if N.eqb c 93 then Some r else after_bracket r | [] => None end.
+Fixpoint after_bracket (s : str) : option str :=      (* the text after the first "]", with no "[" before it *)
+  match s with c :: r => if N.eqb c 93 then Some r else if N.eqb c 91 then None else after_bracket r | [] => None end.
 Definition assign_tail (s : str) : bool :=             (* \+?= *)
   match s with
   | c :: r => if N.eqb c 61 then true else if N.eqb c 43 then match r with d :: _ => N.eqb d 61 | [] => false end else false
